@@ -350,8 +350,12 @@ func late(et time.Time, wm int64) bool { return !et.IsZero() && et.UnixNano() <=
 
 // GenScript draws a structured, mostly valid changelog with watermarks for cfg (0..14 events).
 func GenScript(r *lib.Rng, cfg Config) []lib.Event {
+	return GenScriptPool(r, cfg, genPool(r, cfg))
+}
+
+// GenScriptPool draws a script over the given key pool (so that several runs of one node share groups).
+func GenScriptPool(r *lib.Rng, cfg Config, pool [][]octosql.Value) []lib.Event {
 	n := r.Intn(15)
-	pool := genPool(r, cfg)
 	allowLate := r.Chance(1, 5)
 	overtakeAt := -1
 	if n >= 2 && r.Chance(1, 12) {
@@ -582,10 +586,26 @@ func Observe(cfg Config, script []lib.Event) Stats {
 
 // ---------- building the real node ----------
 
-type scriptImpl struct{ script []lib.Event }
+// runsSource replays scripts[0] on its first Run, scripts[1] on its second, ...: the node above it is one
+// object that is run several times (as the joined side of a LookupJoin or a correlated subquery is).
+type runsSource struct {
+	scripts [][]lib.Event
+	run     int
+}
+
+func (s *runsSource) Run(ctx execution.ExecutionContext, produce execution.ProduceFn, metaSend execution.MetaSendFn) error {
+	i := s.run
+	s.run++
+	if i >= len(s.scripts) {
+		return fmt.Errorf("verif: source run %d times, only %d scripts", i+1, len(s.scripts))
+	}
+	return (&lib.ScriptSource{Events: s.scripts[i]}).Run(ctx, produce, metaSend)
+}
+
+type scriptImpl struct{ scripts [][]lib.Event }
 
 func (s *scriptImpl) Materialize(ctx context.Context, env physical.Environment, schema physical.Schema, pushedDownPredicates []physical.Expression) (execution.Node, error) {
-	return &lib.ScriptSource{Events: s.script}, nil
+	return &runsSource{scripts: s.scripts}, nil
 }
 
 func (s *scriptImpl) PushDownPredicates(newPredicates, pushedDownPredicates []physical.Expression) (rejected, pushedDown []physical.Expression, changed bool) {
@@ -596,7 +616,7 @@ func (s *scriptImpl) PushDownPredicates(newPredicates, pushedDownPredicates []ph
 type fakeSource struct {
 	types     []octosql.Type
 	timeField int
-	script    []lib.Event
+	scripts   [][]lib.Event
 }
 
 func (f *fakeSource) Typecheck(ctx context.Context, env physical.Environment, logicalEnv logical.Environment) (physical.Node, map[string]string) {
@@ -614,7 +634,7 @@ func (f *fakeSource) Typecheck(ctx context.Context, env physical.Environment, lo
 		Datasource: &physical.Datasource{
 			Name:                     "t",
 			Alias:                    "t",
-			DatasourceImplementation: &scriptImpl{script: f.script},
+			DatasourceImplementation: &scriptImpl{scripts: f.scripts},
 			VariableMapping:          mapping,
 		},
 	}, mapping
@@ -662,13 +682,17 @@ func columnTypes(cfg Config, script []lib.Event) []octosql.Type {
 // assembly, keyEventTimeIndex from the source's time field, aggregate overload resolution), then
 // physical.Node.Materialize (SimpleGroupBy / CustomTriggerGroupBy + EventTimeBuffer, triggers).
 // Typecheck panics on error; the panic is returned.
-func Build(cfg Config, script []lib.Event) (node execution.Node, phys physical.Node, err error) {
+func Build(cfg Config, scripts ...[]lib.Event) (node execution.Node, phys physical.Node, err error) {
+	var script []lib.Event // all runs together, for the column types
+	for _, sc := range scripts {
+		script = append(script, sc...)
+	}
 	defer func() {
 		if p := recover(); p != nil {
 			err = fmt.Errorf("planner panicked: %v", p)
 		}
 	}()
-	src := &fakeSource{types: columnTypes(cfg, script), timeField: cfg.KTI, script: script}
+	src := &fakeSource{types: columnTypes(cfg, script), timeField: cfg.KTI, scripts: scripts}
 	varName := func(i int) string {
 		if i%2 == 0 {
 			return fmt.Sprintf("c%d", i)
@@ -755,17 +779,51 @@ func lenBucket(n int) string {
 }
 
 // Rule is the non-trivial rule shared by both engines.
-const Rule = "non-trivial = the input has at least one retraction, at least one watermark and at least two distinct groups (keys compared by Value.Compare); distinct by full case text"
+const Rule = "every node object is run twice (first a priming stream over the same groups, then the main stream; each run is one case); non-trivial = the input has at least one retraction, at least one watermark and at least two distinct groups (keys compared by Value.Compare); distinct by full case text"
 
 // RunCase builds the real node for cfg over script, runs it, records the case and its counters.
 // Non-simple configurations whose event-time buffer delivers an invalid changelog are tagged with
 // OvertakeClass (and nothing else is ever tagged).
-func RunCase(cf *lib.CaseFile, cfg Config, script []lib.Event, origin string) int {
+// Priming derives the deterministic first-run stream of a node from its main stream: the first record of
+// every distinct group, as an insertion, no watermarks.  Every group of the main run has then been seen
+// exactly once by whatever the node (wrongly) keeps between runs.
+func Priming(cfg Config, script []lib.Event) []lib.Event {
+	var out []lib.Event
+	var seen [][]octosql.Value
+outer:
+	for _, e := range script {
+		if e.IsWM || e.Fail {
+			continue
+		}
+		key := e.Rec.Values[:cfg.NK]
+		for _, k := range seen {
+			if sameKey(k, key) {
+				continue outer
+			}
+		}
+		seen = append(seen, key)
+		out = append(out, lib.Event{Rec: execution.NewRecord(append([]octosql.Value(nil), e.Rec.Values...), false, e.Rec.EventTime)})
+	}
+	return out
+}
+
+// RunCase builds ONE node object and runs it once per script (first the priming stream(s), last the main
+// stream); every run is a case of its own: compared with the model and judged by the oracles.
+// Returns the index of the case of the last run.
+func RunCase(cf *lib.CaseFile, cfg Config, origin string, scripts ...[]lib.Event) int {
+	node, _, buildErr := Build(cfg, scripts...)
+	idx := -1
+	for run, script := range scripts {
+		idx = runOnce(cf, cfg, node, buildErr, script, origin, run)
+	}
+	return idx
+}
+
+func runOnce(cf *lib.CaseFile, cfg Config, node execution.Node, buildErr error, script []lib.Event, origin string, run int) int {
 	st := Observe(cfg, script)
 	var out []lib.Event
 	var runErr error
 	var panicked interface{}
-	node, _, buildErr := Build(cfg, script)
 	if buildErr == nil {
 		out, runErr, panicked = lib.RunNode(node)
 	}
@@ -783,7 +841,7 @@ func RunCase(cf *lib.CaseFile, cfg Config, script []lib.Event, origin string) in
 	}
 	js := map[string]interface{}{
 		"nk": cfg.NK, "aggregates": aggNames, "key_event_time_index": cfg.KTI, "triggers": trigNames, "node": kind,
-		"origin": origin, "input": lib.EventsJSON(script), "output": lib.EventsJSON(out),
+		"origin": origin, "run_of_the_node_object": run + 1, "input": lib.EventsJSON(script), "output": lib.EventsJSON(out),
 	}
 	coq := fmt.Sprintf("(%d%%nat, %s, %s, %s, %s, %s)", cfg.NK, cfg.CoqAggs(), cfg.CoqKTI(), cfg.CoqTrigs(), lib.CoqEvents(script), lib.CoqEvents(out))
 	idx := cf.Add(coq, js, st.Retraction && st.WM && st.Groups >= 2)
@@ -791,6 +849,7 @@ func RunCase(cf *lib.CaseFile, cfg Config, script []lib.Event, origin string) in
 	cf.Count("trigset_" + cfg.SetName())
 	cf.Count("node_" + kind)
 	cf.Count("origin_" + origin)
+	cf.Count(fmt.Sprintf("node_run_%d", run+1))
 	cf.Count(lenBucket(len(script)))
 	cf.Count(fmt.Sprintf("nk_%d", cfg.NK))
 	if cfg.KTI >= 0 {
@@ -838,8 +897,19 @@ func RunCase(cf *lib.CaseFile, cfg Config, script []lib.Event, origin string) in
 // RandomCase draws and runs random case number i.
 func RandomCase(cf *lib.CaseFile, r *lib.Rng, i int, pure bool) int {
 	cfg, permuted, duplicated := GenConfig(r, i, pure)
-	script := GenScript(r, cfg)
-	idx := RunCase(cf, cfg, script, "random")
+	pool := genPool(r, cfg)
+	script := GenScriptPool(r, cfg, pool)
+	// the same node object is run twice: first over a priming stream (alternately the deterministic one
+	// derived from the main stream, and an independent random stream over the same groups), then the main one
+	var first []lib.Event
+	if i%2 == 0 {
+		first = Priming(cfg, script)
+		cf.Count("first_run_priming_derived")
+	} else {
+		first = GenScriptPool(r, cfg, pool)
+		cf.Count("first_run_random_same_groups")
+	}
+	idx := RunCase(cf, cfg, "random", first, script)
 	if permuted {
 		cf.Count("trig_permuted")
 	}
@@ -935,6 +1005,54 @@ func Exhaustive(maxLen int) []ExCase {
 			}
 		}
 	}
+	return out
+}
+
+// NullTimeFamily: ON WATERMARK with a key whose time component is NULL (its .Time is the zero time, at or
+// below every watermark, also before the first one) next to an ordinary key: every valid sequence over
+// {+kNull, -kNull, +k1, WM} up to 3 events, for [ON WATERMARK] and [COUNTING 2; ON WATERMARK].
+// kNull = (NULL; 1, 5) with no event time; k1 = (time 2; NULL, 7) at event time 2; i-th watermark = 2i-1.
+func NullTimeFamily() []ExCase {
+	kNull := []octosql.Value{octosql.NewNull(), octosql.NewInt(1), octosql.NewInt(5)}
+	k1 := []octosql.Value{octosql.NewTime(time.Unix(0, 2).UTC()), octosql.NewNull(), octosql.NewInt(7)}
+	var out []ExCase
+	var rec func(prefix []int, c int)
+	rec = func(prefix []int, c int) {
+		if len(prefix) > 0 {
+			var script []lib.Event
+			nwm := 0
+			for _, s := range prefix {
+				switch s {
+				case 0, 1:
+					script = append(script, lib.Event{Rec: execution.NewRecord(append([]octosql.Value(nil), kNull...), s == 1, lib.T(0))})
+				case 2:
+					script = append(script, lib.Event{Rec: execution.NewRecord(append([]octosql.Value(nil), k1...), false, k1[0].Time)})
+				default:
+					nwm++
+					script = append(script, lib.Event{IsWM: true, WM: lib.T(int64(2*nwm - 1))})
+				}
+			}
+			for _, ts := range [][]Trig{{{Kind: Watermark}}, {{Kind: Counting, N: 2}, {Kind: Watermark}}} {
+				out = append(out, ExCase{Cfg: Config{NK: 1, Aggs: []Agg{Count, Sum}, KTI: 0, Trigs: ts}, Script: script, Len: len(prefix)})
+			}
+		}
+		if len(prefix) == 3 {
+			return
+		}
+		for s := 0; s < 4; s++ {
+			if s == 1 && c == 0 {
+				continue
+			}
+			d := 0
+			if s == 0 {
+				d = 1
+			} else if s == 1 {
+				d = -1
+			}
+			rec(append(append([]int(nil), prefix...), s), c+d)
+		}
+	}
+	rec(nil, 0)
 	return out
 }
 
